@@ -172,6 +172,48 @@ func oddHash(lg *lat.Gen) lat.Val {
 	return lat.VH(es...)
 }
 
+var hostileKeys = []string{"", " ", "  ", "\t", "\t ", " \n ", "\n", "\r\n", " a", "a ", "a b", "'", "\"", "a'b", "::", "A::B", "::a", "é", "日本", " é ",
+	"Optional[a]", "Optional['a']", "NotUndef[a]", "String[1]", "undef", "default", "0", "-1", "a\x00b", "\u00a0", "\u2003", "{", "=>", "#", "$a",
+	strings.Repeat("k", 300), strings.Repeat(" ", 40)}
+
+func genHostileKeys(g *core.G) {
+	intAll := lat.Int(lat.MinI, lat.MaxI)
+	str := lat.Atom("str")
+	expected := []lat.Ty{
+		lat.Hash(str, str, 0, lat.MaxI), lat.Hash(str, intAll, 0, lat.MaxI), lat.Hash(lat.StrSz(1, lat.MaxI), lat.Atom("any"), 0, lat.MaxI),
+		lat.Hash(lat.StrSz(0, 1), intAll, 0, 1), lat.Struct(lat.Mem("a", false, intAll)), lat.Struct(), intAll, lat.Atom("data"), lat.Atom("rdata"),
+		lat.Arr(lat.Hash(str, str, 0, lat.MaxI), 0, lat.MaxI), lat.Arr(intAll, 0, lat.MaxI), lat.Var(intAll, lat.Hash(str, str, 0, lat.MaxI)),
+		lat.Opt(lat.Hash(str, lat.Hash(str, str, 0, lat.MaxI), 0, lat.MaxI)), lat.Atom("any"), lat.Coll(0, 1), lat.Iter(lat.Tup([]lat.Ty{str, intAll})),
+		lat.Hash(lat.Enum(false, "a", " "), intAll, 0, lat.MaxI), lat.Tup([]lat.Ty{lat.Hash(str, str, 0, lat.MaxI)}),
+	}
+	n := 0
+	for i, k := range hostileKeys {
+		one := lat.VH(lat.Entry{K: lat.VS(k), V: lat.VI(1)})
+		shapes := []lat.Val{
+			one,
+			lat.VH(lat.Entry{K: lat.VS("a"), V: lat.VI(1)}, lat.Entry{K: lat.VS(k + "x"), V: lat.VS("v")}, lat.Entry{K: lat.VS(k), V: lat.VUndef}),
+			lat.VH(lat.Entry{K: lat.VS("a"), V: one}),
+			lat.VA(one),
+			lat.VA(lat.VI(1), lat.VH(lat.Entry{K: lat.VS("b"), V: lat.VA(one)})),
+			lat.VH(lat.Entry{K: lat.VS(k), V: lat.VH(lat.Entry{K: lat.VS(k), V: lat.VS("v")})}),
+			lat.VSens(one),
+		}
+		for j, v := range shapes {
+			for m, t := range expected {
+				if g.Thorough() || (i+j+m)%3 == 0 {
+					g.Emit("assert " + t.String() + " " + v.String())
+					n++
+				}
+			}
+		}
+		// the Struct whose member is that very key
+		if k != "" {
+			g.Emit("assert " + lat.Struct(lat.Mem(k, false, str)).String() + " " + one.String())
+			g.Emit("assert " + lat.Struct(lat.Mem(k, true, intAll)).String() + " " + one.String())
+		}
+	}
+}
+
 func gen(g *core.G) {
 	lg := &lat.Gen{R: g.Rng}
 	u1, u2 := lat.Universe(1), lat.Universe(2)
@@ -250,6 +292,11 @@ func gen(g *core.G) {
 			g.Emit("assert " + s(t) + " " + oddHash(lg).String())
 		}
 	}
+
+	// ---- (2'') hostile hash KEYS: the detailed type needed for the message turns a hash with string keys into a Struct, whose
+	// constructor validates every key (empty, blank, control characters, quotes, '::', non-ASCII, long, look-alikes of type
+	// syntax) — at top level and nested in hashes / arrays, against several expected types
+	genHostileKeys(g)
 
 	// ---- (2') the recursion guard of aliases: one alias object meeting the same part twice ----------------------------
 	for _, gc := range lg.GuardCases(200 * g.Scale) {
